@@ -441,8 +441,7 @@ Section SpVec.
     destruct (Nat.ltb_spec i (sp_m v)) as [H|H].
     - rewrite (gsum_false o (fun e => key_eq (sp_m v + e_row e) 0 i 0)) by (intros x _; unfold key_eq; eqb_cases).
       rewrite (ventry_gsum v i V). transitivity (gsum (fun e => e_row e =? i) (sp_st v)); [|reflexivity].
-      rewrite <- (radd_0_l o L (gsum (fun e => e_row e =? i) (sp_st v))) at 2.
-      rewrite (radd_comm o L). f_equal. apply gsum_ext. intros x _. unfold key_eq. now rewrite andb_true_r.
+      rewrite (radd_comm o L), (radd_0_l o L). apply gsum_ext. intros x _. unfold key_eq. now rewrite andb_true_r.
     - rewrite (gsum_false o (fun e => key_eq (e_row e) 0 i 0)).
       2:{ intros x Hx. pose proof (vec_rows v x V Hx). unfold key_eq. eqb_cases. }
       rewrite (ventry_gsum w _ W), (radd_0_l o L). apply gsum_ext. intros x _. unfold key_eq. eqb_cases.
